@@ -38,8 +38,13 @@ impl Sess {
 
     /// define a named operand; `rel` is the JSON fragment describing its relation to earlier names
     pub fn def(&mut self, name: &str, mp: &IMp, k: i32, rel: &str) {
-        let g64 = run::to_geo::<f64>(mp, k);
-        let g32 = run::to_geo::<f32>(mp, if k >= 1000 { k } else { k.clamp(-60, 60) });
+        self.def_nz(name, mp, k, rel, (false, false))
+    }
+
+    /// `nz`: zeros on the x / y axis are handed to the library as -0.0 (a reflected operand)
+    pub fn def_nz(&mut self, name: &str, mp: &IMp, k: i32, rel: &str, nz: (bool, bool)) {
+        let g64 = run::to_geo_nz::<f64>(mp, k, nz);
+        let g32 = run::to_geo_nz::<f32>(mp, if k >= 1000 { k } else { k.clamp(-60, 60) }, nz);
         let mag = run::magnitude(&[mp]);
         self.mag = self.mag.max(mag);
         let s = run::snap(&g64, k, mag);
@@ -243,6 +248,11 @@ pub fn canon_pair(fam: &str, kmax: i64, rng: &mut Rng) -> (Vec<(Vec<P>, Vec<Vec<
         let y = v.pop().unwrap();
         return (v.pop().unwrap(), y);
     }
+    if fam == "holefill" {
+        let mut v = gen::holefill_set(rng, 2);
+        let y = v.pop().unwrap();
+        return (v.pop().unwrap(), y);
+    }
     if fam == "fan" {
         let (x, y) = gen::fan_pair(rng);
         return if rng.chance(1, 2) { (x, y) } else { (y, x) };
@@ -288,6 +298,12 @@ pub fn canon_triple(fam: &str, kmax: i64, rng: &mut Rng) -> [Vec<(Vec<P>, Vec<Ve
     }
     if fam == "pinch" {
         let mut v = gen::pinch_set(rng, 3);
+        let c = v.pop().unwrap();
+        let b = v.pop().unwrap();
+        return [v.pop().unwrap(), b, c];
+    }
+    if fam == "holefill" {
+        let mut v = gen::holefill_set(rng, 3);
         let c = v.pop().unwrap();
         let b = v.pop().unwrap();
         return [v.pop().unwrap(), b, c];
@@ -435,8 +451,11 @@ pub fn sess_xform(sid: u64, fam: &str, seed: u64, o: &Opts) -> Sess {
     let t = rng.range(1, 7) as u32;
     let ay = gen::map_mp(&a, &|p| gen::sym(t, p));
     let by = gen::map_mp(&b, &|p| gen::sym(t, p));
-    s.def("Ay", &ay, 0, &format!("\"rel\":\"sym\",\"of\":\"A\",\"t\":{}", t));
-    s.def("By", &by, 0, &format!("\"rel\":\"sym\",\"of\":\"B\",\"t\":{}", t));
+    // a reflection computed on the float coordinates turns 0.0 into -0.0: hand over exactly that
+    let nz = if rng.chance(2, 3) { ([1, 3, 5, 7].contains(&t), [2, 3, 6, 7].contains(&t)) } else { (false, false) };
+    s.def_nz("Ay", &ay, 0, &format!("\"rel\":\"sym\",\"of\":\"A\",\"t\":{},\"negzero\":[{},{}]", t, nz.0, nz.1), nz);
+    let nzb = if rng.chance(1, 4) { (false, false) } else { nz };
+    s.def_nz("By", &by, 0, &format!("\"rel\":\"sym\",\"of\":\"B\",\"t\":{},\"negzero\":[{},{}]", t, nzb.0, nzb.1), nzb);
     for (op, _) in run::OPS {
         s.call(op, "A", "B", 'm', 'm', false);
         s.call(op, "As", "Bs", 'm', 'm', false);
@@ -541,6 +560,49 @@ pub fn sess_f32(sid: u64, fam: &str, seed: u64, o: &Opts) -> Sess {
     s
 }
 
+/// kinds "pf32" / "pf64": every call of the session in ONE coordinate type. The orchestrator
+/// records the same batch in two processes - one where this is the first thing the process
+/// computes, one after a warm-up call in the OTHER type on another thread (`--warm`) - and merges
+/// them: equal calls must give bit-identical results whatever the process computed before (C12).
+pub fn sess_ptype(sid: u64, fam: &str, seed: u64, o: &Opts, f32_: bool) -> Sess {
+    let mut rng = Rng::new(seed);
+    let mut s = Sess::new(sid, if f32_ { "pf32" } else { "pf64" }, fam, seed);
+    s.touch = fam.starts_with("big");
+    let fr0 = frame_for(fam, &mut rng);
+    let fr = if fr0 == 0 && !fam.starts_with("big") { *rng.pick(&[0i32, 0, -10, -20, 10, 20]) } else { fr0 };
+    let (a, b) = loop {
+        let (ca, cb) = canon_pair(fam, o.kmax, &mut rng);
+        let a = gen::present(&ca, gen::RANDOMISED, &mut rng);
+        let b = gen::present(&cb, gen::RANDOMISED, &mut rng);
+        if !too_big(&a, &b, o.max_edges) {
+            break (a, b);
+        }
+    };
+    s.def("A", &a, fr, BASE);
+    s.def("B", &b, fr, BASE);
+    for (op, _) in run::OPS {
+        s.call(op, "A", "B", 'm', 'm', f32_);
+        s.call(op, "B", "A", 'm', 'm', f32_);
+    }
+    s
+}
+
+/// one library call in the given type on a fresh, joined thread (process warm-up for `--warm`)
+pub fn warm_up(f32_: bool) {
+    let h = std::thread::spawn(move || {
+        let t1: IMp = vec![IPoly { ext: vec![(0, 0), (4, 0), (1, 3), (0, 0)], holes: vec![] }];
+        let t2: IMp = vec![IPoly { ext: vec![(1, 1), (5, 2), (2, 5), (1, 1)], holes: vec![] }];
+        if f32_ {
+            let (a, b) = (run::to_geo::<f32>(&t1, 0), run::to_geo::<f32>(&t2, 0));
+            let _ = std::panic::catch_unwind(|| geo_booleanop::boolean::BooleanOp::union(&a, &b));
+        } else {
+            let (a, b) = (run::to_geo::<f64>(&t1, 0), run::to_geo::<f64>(&t2, 0));
+            let _ = std::panic::catch_unwind(|| geo_booleanop::boolean::BooleanOp::union(&a, &b));
+        }
+    });
+    let _ = h.join();
+}
+
 /// kind "chain": (A op B) op' C and C op' (A op B); C independent or A or B again
 pub fn sess_chain(sid: u64, fam: &str, seed: u64, o: &Opts, depth3: bool) -> Sess {
     let mut rng = Rng::new(seed);
@@ -559,19 +621,29 @@ pub fn sess_chain(sid: u64, fam: &str, seed: u64, o: &Opts, depth3: bool) -> Ses
     s.def("B", &b, fr, BASE);
     s.def("C", &c, fr, BASE);
     let ops = ["int", "union", "diff", "xor"];
+    // half of the sessions work on operands that are themselves OUTPUTS of the library (A u A,
+    // B n B: the library's own ring form - start vertex, direction, hole order), so that a
+    // fed-back result can coincide ring by ring with the operand it is combined with again
+    let (na, nb) = if !fam.starts_with("aff-") && (fam == "holefill" || rng.chance(1, 2)) {
+        let na = s.call(if rng.chance(1, 2) { "union" } else { "int" }, "A", "A", 'm', 'm', false);
+        let nb = s.call(if rng.chance(1, 2) { "union" } else { "int" }, "B", "B", 'm', 'm', false);
+        (na, nb)
+    } else {
+        ("A".to_string(), "B".to_string())
+    };
     // a seeded subset of the 16 x 3 x 2 chains per session keeps sessions small; all pairs occur across seeds
     for op in ops {
-        let r = s.call(op, "A", "B", 'm', 'm', false);
+        let r = s.call(op, &na, &nb, 'm', 'm', false);
         for op2 in ops {
             if !rng.chance(1, 2) {
                 continue;
             }
-            let third = *rng.pick(&["C", "A", "B"]);
+            let third = *rng.pick(&["C", na.as_str(), nb.as_str()]);
             let third = if fam.starts_with("aff-") { "C" } else { third };
             let s1 = if rng.chance(1, 2) { s.call(op2, &r, third, 'm', 'm', false) } else { s.call(op2, third, &r, 'm', 'm', false) };
             if depth3 && rng.chance(1, 3) {
                 let op3 = *rng.pick(&ops);
-                let fourth = *rng.pick(&["C", "A", "B"]);
+                let fourth = *rng.pick(&["C", na.as_str(), nb.as_str()]);
                 let fourth = if fam.starts_with("aff-") { "C" } else { fourth };
                 s.call(op3, &s1, fourth, 'm', 'm', false);
             }
@@ -749,7 +821,8 @@ pub fn rerun(line: &str, sid: Option<u64>) -> String {
                 }
                 let name = e["name"].as_str().unwrap();
                 rename.insert(name.to_string(), name.to_string());
-                s.def(name, &mp, e["k"].as_i64().unwrap_or(0) as i32, &rel);
+                let nz = e.get("negzero").and_then(|v| v.as_array()).map(|a| (a[0].as_bool().unwrap_or(false), a[1].as_bool().unwrap_or(false))).unwrap_or((false, false));
+                s.def_nz(name, &mp, e["k"].as_i64().unwrap_or(0) as i32, &rel, nz);
             }
             "call" => {
                 let g = |k: &str| e[k].as_str().unwrap().to_string();
